@@ -58,4 +58,64 @@ theorem consumer_generation_tests_tie (stored : Nat) (given : Option Nat) :
     ((some stored != given) = Gen.consumerGenMismatch stored given) ∧ (given.isSome = Gen.consumerGenUnexpected given) :=
   ⟨rfl, rfl⟩
 
+/-! ### the retry loop of `replace_all` (generated control flow, `Gen.replaceAllLoop`)
+
+The model's `replaceAll` is written with exactly this flow (an attempt that succeeds ends the loop, a provider generation
+conflict starts the next attempt while any is left, running out of attempts raises the conflict).  The three statements
+below are what C05 / C07 / C10 need of it; they are proved of the GENERATED function, so a `break` / `return` smuggled
+into the conflict handler, or a dropped `else: raise`, changes the definition and the proofs no longer check. -/
+
+/-- the function never returns normally without a successful attempt, and raises nothing but the conflict -/
+theorem retry_loop_never_silent (attempt : Nat → Bool) :
+    ∀ r i, Gen.replaceAllLoop attempt r i ≠ .leftWithoutSuccess ∧ Gen.replaceAllLoop attempt r i ≠ .raisedOther
+  | 0, i => by simp [Gen.replaceAllLoop]
+  | r + 1, i => by
+    simp only [Gen.replaceAllLoop]
+    split
+    · simp
+    · exact retry_loop_never_silent attempt r (i + 1)
+
+/-- it ends with the first attempt that succeeds -/
+theorem retry_loop_succeeded (attempt : Nat → Bool) :
+    ∀ r i k, Gen.replaceAllLoop attempt r i = .succeeded k →
+      attempt k = true ∧ i ≤ k ∧ k < i + r ∧ ∀ j, i ≤ j → j < k → attempt j = false
+  | 0, i, k, h => by simp [Gen.replaceAllLoop] at h
+  | r + 1, i, k, h => by
+    simp only [Gen.replaceAllLoop] at h
+    split at h
+    · rename_i ha
+      cases h
+      exact ⟨ha, Nat.le_refl _, by omega, fun j h1 h2 => by omega⟩
+    · rename_i ha
+      obtain ⟨h1, h2, h3, h4⟩ := retry_loop_succeeded attempt r (i + 1) k h
+      refine ⟨h1, by omega, by omega, fun j hj1 hj2 => ?_⟩
+      by_cases hji : j = i
+      · subst hji; simpa using ha
+      · exact h4 j (by omega) hj2
+
+/-- it raises the conflict exactly when every permitted attempt lost -/
+theorem retry_loop_raises_iff (attempt : Nat → Bool) :
+    ∀ r i, Gen.replaceAllLoop attempt r i = .raisedConflict ↔ ∀ j, i ≤ j → j < i + r → attempt j = false
+  | 0, i => by simp [Gen.replaceAllLoop]; intro j h1 h2; omega
+  | r + 1, i => by
+    simp only [Gen.replaceAllLoop]
+    split
+    · rename_i ha
+      constructor
+      · intro h; cases h
+      · intro h; have := h i (Nat.le_refl _) (by omega); rw [ha] at this; cases this
+    · rename_i ha
+      rw [retry_loop_raises_iff attempt r (i + 1)]
+      constructor
+      · intro h j h1 h2
+        by_cases hji : j = i
+        · subst hji; simpa using ha
+        · exact h j (by omega) (by omega)
+      · intro h j h1 h2
+        exact h j (by omega) (by omega)
+
+/-- with the configured number of attempts: ten conflicts in a row are needed for the request to fail -/
+example : Gen.replaceAllLoop (fun i => i == 9) Gen.allocationConflictRetryCount 0 = .succeeded 9 := by decide
+example : Gen.replaceAllLoop (fun _ => false) Gen.allocationConflictRetryCount 0 = .raisedConflict := by decide
+
 end Placement.GuardTie
